@@ -66,9 +66,8 @@ def subForWrite (e : Eapol) : Bytes :=
     `memcpy(buffer, &header_, 5)`, then `write_body(stream)` -/
 def write (e : Eapol) (region : Bytes) : Out Bytes := do
   let hdr := patch e.hdr 2 (OutCursor.beBytes 2 ((region.length + 4294967296 - 4) % 4294967296))
-  let o ← (OutCursor.ofRegion region).write hdr
-  let o ← o.write (subForWrite e)
-  let o ← o.write e.key
+  -- stream.write(header_); write_body: stream.write(header_); stream.write(key_.begin(), key_.end())
+  let o ← Dot11.writeAll (OutCursor.ofRegion region) [hdr, subForWrite e, e.key]
   -- the memcpy happens right after the first stream.write; it stores the same 5 bytes again
   poke "EAPOL::write_serialization memcpy" o.buffer 0 hdr
 
